@@ -11,7 +11,7 @@ package main
 //
 // Op lines (one answer line each, from the real code here and from the Lean model in Driver/C02.lean):
 //
-//	case <name> seed=<n> shared=<0|1> epochs=<spec;spec…>    spec = epoch:blocks:maxtx:skip:frame:big:loaded:firstslot
+//	case <name> seed=<n> twin=<0|1> skip1=<0|1> epochs=<spec;spec…>   spec = epoch:blocks:maxtx:skip:frame:big:loaded:firstslot
 //	epoch <num> genesis=<unix|->                             the archive, described once per case (ground truth of the
 //	obj <epoch> <cid> <offset>                                 generator): CAR sections, blocks, entries, transactions
 //	block <epoch> <slot> <parent> <time> <height> <cid>
@@ -71,7 +71,7 @@ var c02APIs = []string{"grpc", "json-base58", "json-base64", "json-base64+zstd",
 type c02Case struct {
 	name   string
 	seed   uint64
-	shared bool // at least one CID stored at different offsets in two of the epochs
+	twin   bool // a further epoch (number = last + 1) built by c02GenTwin from the multi-frame transactions of the FIRST epoch: the two share objects
 	specs  []genOpts
 	skip1  bool // epoch 0: first block at slot 0, second block at slot >= 2 (boundary of the same-epoch parent test)
 }
@@ -100,13 +100,13 @@ func c02ParseSpecs(s string) []genOpts {
 
 func (c c02Case) line() string {
 	sh, sk := 0, 0
-	if c.shared {
+	if c.twin {
 		sh = 1
 	}
 	if c.skip1 {
 		sk = 1
 	}
-	return fmt.Sprintf("case %s seed=%d shared=%d skip1=%d epochs=%s", c.name, c.seed, sh, sk, c02SpecString(c.specs))
+	return fmt.Sprintf("case %s seed=%d twin=%d skip1=%d epochs=%s", c.name, c.seed, sh, sk, c02SpecString(c.specs))
 }
 
 func c02ParseCase(line string) (c02Case, bool) {
@@ -120,8 +120,8 @@ func c02ParseCase(line string) (c02Case, bool) {
 		switch k {
 		case "seed":
 			c.seed, _ = strconv.ParseUint(v, 10, 64)
-		case "shared":
-			c.shared = v == "1"
+		case "twin":
+			c.twin = v == "1"
 		case "skip1":
 			c.skip1 = v == "1"
 		case "epochs":
@@ -137,16 +137,17 @@ func c02Cases(rng *zz.RNG, thorough bool) []c02Case {
 	}
 	var cs []c02Case
 	if !thorough {
-		cs = append(cs, c02Case{name: "main", seed: rng.U64(), shared: true, specs: []genOpts{
+		// epochs 0, 1, 2 from the shared fixture + epoch 3 = twin of epoch 0 (shares frames with it)
+		cs = append(cs, c02Case{name: "main", seed: rng.U64(), twin: true, specs: []genOpts{
 			mk(0, 24, 4, 0, 30, 5, 20), mk(1, 30, 5, 30, 25, 5, 30), mk(2, 30, 5, 40, 25, 0, 0)}})
 	} else {
-		cs = append(cs, c02Case{name: "main", seed: rng.U64(), shared: true, specs: []genOpts{
+		cs = append(cs, c02Case{name: "main", seed: rng.U64(), twin: true, specs: []genOpts{
 			mk(0, 200, 5, 0, 4, 4, 20), mk(1, 300, 6, 30, 3, 4, 30), mk(2, 300, 6, 50, 3, 2, 10)}})
-		cs = append(cs, c02Case{name: "dense-frames", seed: rng.U64(), shared: true, specs: []genOpts{
+		cs = append(cs, c02Case{name: "dense-frames", seed: rng.U64(), twin: true, specs: []genOpts{
 			mk(5, 12, 4, 20, 100, 10, 0), mk(6, 12, 4, 20, 100, 0, 0), mk(7, 10, 4, 60, 100, 0, 40)}})
 	}
-	// directed: a pair of small epochs whose every transaction has multi-frame metadata
-	cs = append(cs, c02Case{name: "shared-frames", seed: rng.U64(), shared: true, specs: []genOpts{mk(3, 10, 3, 30, 100, 0, 0), mk(4, 10, 3, 30, 100, 0, 0)}})
+	// directed: a small epoch whose every transaction has multi-frame metadata, and its twin
+	cs = append(cs, c02Case{name: "shared-frames", seed: rng.U64(), twin: true, specs: []genOpts{mk(10, 10, 3, 30, 100, 0, 0)}})
 	// directed: epoch 0 whose second block skips slot 1 (parent = slot 0)
 	cs = append(cs, c02Case{name: "epoch0-skip1", seed: rng.U64(), skip1: true, specs: []genOpts{mk(0, 5, 2, 50, 30, 0, 0)}})
 	// model validation only: an epoch that starts mid-epoch (the parent of its first block is in the same epoch but not archived)
@@ -186,10 +187,11 @@ func c02Shared(ges []*gEpoch) map[cid.Cid]bool {
 }
 
 // c02Generate: rejection sampling over sub-seeds until the epochs have no duplicate object inside one CAR (the index
-// builder refuses those: not this property's business) and satisfy the case's directed condition.
+// builder refuses those: not this property's business) and satisfy the case's directed condition (epoch 0 starts at
+// slot 0; skip1; the twin really shares an object with its donor at a different offset).
 func c02Generate(c c02Case, dir string) ([]*gEpoch, int, error) {
 	master := zz.NewRNG(c.seed)
-	for try := 1; try <= 4000; try++ {
+	for try := 1; try <= 400; try++ {
 		sub := zz.NewRNG(master.U64())
 		var ges []*gEpoch
 		ok := true
@@ -212,12 +214,24 @@ func c02Generate(c c02Case, dir string) ([]*gEpoch, int, error) {
 		if !ok {
 			continue
 		}
-		if c.shared && len(c02Shared(ges)) == 0 {
-			continue
+		if c.twin {
+			donors := c02Donors(ges[0], 24)
+			if len(donors) == 0 {
+				continue
+			}
+			last := c.specs[len(c.specs)-1].Epoch
+			tw := c02GenTwin(sub, dir, last+1, donors, byte(last+2))
+			if c02DupWithin(tw) {
+				continue
+			}
+			ges = append(ges, tw)
+			if len(c02Shared(ges)) == 0 {
+				continue
+			}
 		}
 		return ges, try, nil
 	}
-	return nil, 4000, fmt.Errorf("no acceptable epoch set in 4000 tries")
+	return nil, 400, fmt.Errorf("no acceptable epoch set in 400 tries")
 }
 
 func c02NewCache(ctx context.Context) *hugecache.Cache {
